@@ -502,7 +502,8 @@ class Spec:
     selftest_samples = 400
     fresh_samples = 200
     shrink_runs = 1500
-    slow_run_s = 0.01  # per run; above this the workers are unpinned
+    pin_workers = False  # no threads, nothing to gain from pinning
+    slow_step_s = 0.002
     shrink_wall_s = 60
     run_one = staticmethod(run_one)
     classify = staticmethod(classify)
